@@ -129,6 +129,10 @@ where
 
     let mut lines = CrlfLines { slice: buf };
 
+    // `next_line` also returns the unterminated rest of the buffer as a line:
+    // the beginning of the first delimiter line (or of the CRLF before it) is not a mismatch, more data is needed
+    let is_partial = |line: &[u8], rest: &[u8]| rest.is_empty() && !buf.ends_with(b"\r\n") && (pat.starts_with(line) || line == b"\r");
+
     // first line
     match lines.next_line() {
         None => return Err((body, pat)),
@@ -138,6 +142,9 @@ where
                 None => return Err((body, pat)),
                 Some(line) => {
                     if line != pat_without_crlf {
+                        if is_partial(line, lines.slice) {
+                            return Err((body, pat));
+                        }
                         return Ok(Err(MultipartError::InvalidFormat));
                     }
                 }
@@ -145,6 +152,9 @@ where
         }
         Some(line) => {
             if line != pat_without_crlf {
+                if is_partial(line, lines.slice) {
+                    return Err((body, pat));
+                }
                 return Ok(Err(MultipartError::InvalidFormat));
             }
         }
